@@ -43,6 +43,7 @@ def setup(ctx):
     ctx.require("monitor", "error_points", 98)
     ctx.require("monitor", "defective_imports", 100)
     ctx.require("monitor", "roundtrip_hosts", 60)
+    ctx.require("monitor", "roundtrip_hosts_with_later_last_seen", 20)
     ctx.require("monitor", "outcome_before", 50)
     ctx.require("monitor", "outcome_after", 27)
 
@@ -452,8 +453,14 @@ def run_roundtrip(ctx, tmp, rng):
             port = rng.choice([1965, 1, 65535, 1966, 300])
             names.add((nm, port))
         for nm, port in sorted(names):
-            a.trust(nm, port, cert_obj(rng.randint(0, 2))[0])
+            ci = rng.randint(0, 2)
+            a.trust(nm, port, cert_obj(ci)[0])
+            if rng.random() < 0.6:
+                # seen again later: last_seen moves on, first_seen must survive the round trip
+                a.verify(nm, port, cert_obj(ci)[0])
         before = dump(src)
+        full = sorted(_real_connect(src).execute("SELECT first_seen, last_seen FROM known_hosts").fetchall())
+        ctx.count("monitor", "roundtrip_hosts_with_later_last_seen", sum(1 for f, l in full if f != l))
         f = os.path.join(tmp, "rt.toml")
         wit = {"hosts": [list(r[:2]) for r in before]}
         try:
